@@ -7,6 +7,7 @@ import BSModel.Proofs.WriterViews
 import BSModel.Gen.Cp1252
 import BSModel.Proofs.TokenizerWholePos
 import BSModel.Proofs.TokenizerWholeBuild
+import BSModel.Proofs.TokenizerRawDoc
 /-! # C04 — html.parser documents become the tree the markup describes
 
 The adapter `BeautifulSoupHTMLParser` as a function from the standard-library parser's callback stream to builder
@@ -506,6 +507,113 @@ example : adapterBuild xB xA (BS.Tokenizer.callbacks (BS.Tokenizer.run xP (write
 example : ¬ Writable xA.isVoid { xC with char := fun _ _ => .lit false } [.text [97, 60, 98]] := by decide
 example : ¬ Writable xA.isVoid xC [.elem [115, 99, 114, 105, 112, 116] [] [.text [120]]] := by decide
 example : ¬ Writable xA.isVoid xC [.special .comment [97, 45, 45, 32, 62, 98]] := by decide
+
+/-! ### `<script>` / `<style>`: raw text through the tokenizer's CDATA mode
+
+`Writable` excludes the two elements whose content html.parser reads in CDATA mode (`set_cdata_mode`, parser.py:123-125:
+`interesting` becomes `</\s*name\s*>` with `re.I`; `parse_endtag` 407-416 only leaves the mode on the element's own name).
+`WritableRaw` (`Model/WriterText.lean`) admits them with ONE text child written verbatim whose text respects `rawTextOK`. -/
+
+/-- **raw_text_element_tokens — the tokenizer on a written raw-text element.** Anywhere in `feed` outside CDATA mode,
+    whatever follows (`rest`): on `<name attrs>text</name>` with `name` = `script` or `style`, attribute names of the
+    writer's class and `rawTextOK name text`, two turns of the `goahead` loop make exactly `handle_starttag(name, attrs)`
+    at the position of the `<`, `handle_data(text)` — the whole text, verbatim, in one callback, none when it is empty —
+    and `handle_endtag(name)`; CDATA mode is off again and the loop goes on with `rest`. -/
+theorem raw_text_element_tokens (P : BS.Tokenizer.Params) (hP : ParamsOK P) (n : PStr) (a : List (PStr × Option PStr))
+    (t rest : PStr) (pos : Nat × Nat) (f : Nat) (hcd : BS.Tokenizer.cdataContentElements.contains n = true)
+    (ha : ∀ kv ∈ a, nameOK kv.1 = true) (ht : rawTextOK n t = true) :
+    BS.Tokenizer.loop P false (f + 2) ⟨openText n a false ++ (t ++ (closeText n ++ rest)), pos, none⟩ =
+      (let pos1 := BS.SourcePos.updatepos pos (openText n a false)
+       let pos2 := BS.SourcePos.updatepos pos1 t
+       let r := BS.Tokenizer.loop P false f ⟨rest, BS.SourcePos.updatepos pos2 (closeText n), none⟩
+       ⟨⟨.st n a, openText n a false, pos⟩ :: (rawDataEv t pos1 ++ ⟨.et n, closeText n, pos2⟩ :: r.evs), r.st, r.flag⟩) :=
+  loop_raw_element P hP n a t rest pos f hcd ha ht
+
+/-- **the tokenizer on a written document with raw-text elements**: `callbacks_of_written_document` for `WritableRaw`. -/
+theorem callbacks_of_written_document_raw (P : BS.Tokenizer.Params) (hP : ParamsOK P) (iv : Name → Bool) (c : Choices)
+    (ds : List WDoc) (hw : WritableRaw iv c ds) :
+    mergeData (BS.Tokenizer.callbacks (BS.Tokenizer.run P (writeText iv c ds))) =
+        mergeData (emitDoc iv (withDerivedPos iv c ds) ds) ∧
+      (BS.Tokenizer.run P (writeText iv c ds)).flag = .ok ∧ (BS.Tokenizer.run P (writeText iv c ds)).st.s = [] := by
+  have hg := goodL_wtoksL P hP iv c ds [] 0 hw
+  obtain ⟨h1, h2, h3⟩ := run_toksL P hP (wtoksL iv c [] 0 ds) hg
+  refine ⟨?_, h2, h3⟩
+  have hm := callbacks_runToks (wtoksL iv c [] 0 ds) [] []
+  have he := tokEvs_wtoksL iv c (derivedPos iv c ds) ds [] 0 [] (derivedPos_agrees iv c ds)
+  simp only [BS.Tokenizer.callbacks, writeText, h1]
+  rw [hm]
+  simp only [List.append_nil, flushLit, List.isEmpty_nil, if_true, List.nil_append, he]
+  rfl
+
+/-- **parse_of_written_document_raw — … also with `<script>` and `<style>`.** `parse_of_written_document` for
+    `WritableRaw` documents: the text of a raw-text element, written verbatim, comes back as ONE string child of the
+    element, of the class the builder's string-container rule gives the element (`normalise`: `Script` under `script`,
+    `Stylesheet` under `style` for the HTML builders' `string_containers`, C03), `<`, `&` and tags inside it untouched
+    (a text of ASCII whitespace only becomes one `\\n` or space, as everywhere outside `<pre>`: that is `normalise`). -/
+theorem parse_of_written_document_raw (bcfg : Cfg) (acfg : ACfg) (hc : CfgOK bcfg) (P : BS.Tokenizer.Params) (hP : ParamsOK P)
+    (c : Choices) (ds : List WDoc) (hw : WritableRaw acfg.isVoid c ds) (hr : Representable bcfg acfg ds)
+    (hs : WellSpelt acfg c.char ds) :
+    adapterBuild bcfg acfg (BS.Tokenizer.callbacks (BS.Tokenizer.run P (writeText acfg.isVoid c ds))) =
+      (normalise bcfg ds, startInfos acfg (withDerivedPos acfg.isVoid c ds) ds) := by
+  rw [adapterBuild_congr bcfg acfg hc _ _ (callbacks_of_written_document_raw P hP acfg.isVoid c ds hw).1]
+  exact emit_build bcfg acfg hc ds (withDerivedPos acfg.isVoid c ds) hr hs
+
+/-! non-vacuity: a document with a `<script>` (with `<`, `&&` and `"</p>"` in it) and a `<style>` next to ordinary elements -/
+
+/-- `xB` with the string containers of the HTML builders for the two raw-text elements: `script` ↦ 6 (`Script`),
+    `style` ↦ 7 (`Stylesheet`) -/
+def xBR : Cfg :=
+  { xB with container := fun n => if n == BS.ofS "script" then some 6 else if n == BS.ofS "style" then some 7 else none }
+def xDocR : List WDoc :=
+  [ .special .doctype (BS.ofS "html"),
+    .elem (BS.ofS "p") []
+      [ .text (BS.ofS "a&b"), .elem (BS.ofS "script") [] [ .text (BS.ofS "if (a < b && c) { x = \"</p>\"; }") ],
+        .elem (BS.ofS "br") [] [] ],
+    .elem (BS.ofS "style") [(BS.ofS "type", some (BS.ofS "text/css"))] [ .text (BS.ofS "p > a { color: red }\n") ],
+    .text (BS.ofS "z") ]
+/-- `&amp;` for the `&` of `a&b`; everything else literal -/
+def xCR : Choices := { xC with char := fun p i => if p == [0, 1] && i == 1 then .named [97, 109, 112] else .lit false }
+
+example : WritableRaw xA.isVoid xCR xDocR := by decide +kernel
+example : ¬ Writable xA.isVoid xCR xDocR := by decide +kernel
+example : writeText xA.isVoid xCR xDocR = BS.ofS
+    "<!doctype html><p>a&amp;b<script>if (a < b && c) { x = \"</p>\"; }</script><br></br></p><style type=\"text/css\">p > a { color: red }\n</style>z" := by
+  decide +kernel
+/-- the model tokenizer on that text: the script text is one `data`, its `</p>` is not an end tag -/
+example : (BS.Tokenizer.run xP (writeText xA.isVoid xCR xDocR)).evs.map (fun e => (e.tok, e.pos)) =
+    [ (.dl (BS.ofS "doctype html"), (1, 0)), (.st (BS.ofS "p") [], (1, 15)), (.data [97], (1, 18)), (.er (BS.ofS "amp"), (1, 19)),
+      (.data [98], (1, 24)), (.st (BS.ofS "script") [], (1, 25)), (.data (BS.ofS "if (a < b && c) { x = \"</p>\"; }"), (1, 33)),
+      (.et (BS.ofS "script"), (1, 64)), (.st (BS.ofS "br") [], (1, 73)), (.et (BS.ofS "br"), (1, 77)), (.et (BS.ofS "p"), (1, 82)),
+      (.st (BS.ofS "style") [(BS.ofS "type", some (BS.ofS "text/css"))], (1, 86)),
+      (.data (BS.ofS "p > a { color: red }\n"), (1, 109)), (.et (BS.ofS "style"), (2, 0)), (.data [122], (2, 8)) ] := by decide +kernel
+/-- the tree: the script text is one `Script` (6) string, the style text one `Stylesheet` (7) string -/
+example : codeL (normalise xBR xDocR) = codeL
+    [ .text 5 (BS.ofS "html"),
+      .elem (BS.ofS "p") none
+        [ .text 0 (BS.ofS "a&b"),
+          .elem (BS.ofS "script") none [ .text 6 (BS.ofS "if (a < b && c) { x = \"</p>\"; }") ],
+          .elem (BS.ofS "br") none [] ],
+      .elem (BS.ofS "style") none [ .text 7 (BS.ofS "p > a { color: red }\n") ],
+      .text 0 [122] ] := by decide +kernel
+example : adapterBuild xBR xA (BS.Tokenizer.callbacks (BS.Tokenizer.run xP (writeText xA.isVoid xCR xDocR))) =
+    (normalise xBR xDocR, startInfos xA (withDerivedPos xA.isVoid xCR xDocR) xDocR) :=
+  parse_of_written_document_raw xBR xA (by decide) xP xP_ok xCR xDocR (by decide +kernel) (by decide +kernel) (by decide +kernel)
+/-- `raw_text_element_tokens` at `<script>a<b</script>z`, fuel 2 + 2 -/
+example : (BS.Tokenizer.loop xP false 4 ⟨BS.ofS "<script>a<b</script>z", (1, 0), none⟩).evs.map (·.tok) =
+    [.st (BS.ofS "script") [], .data (BS.ofS "a<b"), .et (BS.ofS "script"), .data [122]] := by decide +kernel
+/-- the condition is genuine: `</script`, `</ script`, `</SCRIPT`, `</ſcript` inside a script, a script text ending in
+    `</`+whitespace, a reference spelling, two children — not writable; `</style` inside a script is fine -/
+example : rawTextOK (BS.ofS "script") (BS.ofS "a</script>b") = false ∧ rawTextOK (BS.ofS "script") (BS.ofS "a</ script") = false ∧
+    rawTextOK (BS.ofS "script") (BS.ofS "</SCRIPT") = false ∧ rawTextOK (BS.ofS "script") [60, 47, 383] = false ∧
+    rawTextOK (BS.ofS "script") (BS.ofS "x</\n") = false ∧ rawTextOK (BS.ofS "script") (BS.ofS "a</tyle></p><!--&amp;</") = true ∧
+    rawTextOK (BS.ofS "style") (BS.ofS "</script>") = false := by decide +kernel
+example : ¬ WritableRaw xA.isVoid { xC with char := fun _ _ => .dec 0 } [.elem (BS.ofS "script") [] [.text [120]]] := by decide +kernel
+example : ¬ WritableRaw xA.isVoid xCR [.elem (BS.ofS "script") [] [.text [120], .text [121]]] := by decide +kernel
+/-- where the condition fails the conclusion fails: the model tokenizer ends the script at the inner `</script >` -/
+example : (mergeData (BS.Tokenizer.callbacks (BS.Tokenizer.run xP
+      (writeText xA.isVoid xCR [.elem (BS.ofS "script") [] [.text (BS.ofS "a</script >b")]])))).length = 5 ∧
+    (mergeData (emitDoc xA.isVoid (withDerivedPos xA.isVoid xCR [.elem (BS.ofS "script") [] [.text (BS.ofS "a</script >b")]])
+      [.elem (BS.ofS "script") [] [.text (BS.ofS "a</script >b")]])).length = 3 := by decide +kernel
 
 end Written
 
